@@ -5,9 +5,11 @@ CONSTANTS
   Drawings = 4
   Kinds = {"rect", "tri", "L", "T", "dia", "rectD", "triD", "LD", "diaD"}
   MutSeq <- MutGen
-  Modes = {"any", "inside", "around", "apart", "touch", "same"}
+  ModeSeq <- ModeGen
   MaxSegs = 26
   Styles = {"long", "short", "mixed", "mid"}
+  RolePats <- AllRolePats
   Theorems = FALSE
+  Tiles = FALSE
 INVARIANTS Export
 CHECK_DEADLOCK FALSE
